@@ -1,4 +1,7 @@
 """C06 — a serialized task id continues the same tree in another thread/process."""
+import json
+
+from lib import progs
 from lib.framework import Family
 from lib.coqbridge import Pos, Str, C, Raw, to_coq, flat
 
@@ -10,7 +13,9 @@ TRUSTED = [
 ]
 ASSUMPTIONS = ["levels produced by the library are lists of positive integers"]
 RULE = ("ids: levels/uuids drawn from the seed (depth 0-12, components up to 10^30, digit strings with leading zeros); "
-        "non-trivial = distinct (uuid, level) with depth >= 1")
+        "single_use: 2-4 real threads invoking one preserve_context callable under the line-granular scheduler (every single-preemption "
+        "schedule + random ones); handoff_programs: generated programs with multi-hop hand-offs to threads, logs parsed in shuffled orders; "
+        "process: hand-off to real child processes writing their own log files, merged in shuffled orders")
 
 
 # ---------------------------------------------------------------- family: ids
@@ -119,11 +124,275 @@ def nontrivial_ids(case, obs):
     return (case["uuid"], tuple(case["level"])) if case["level"] else None
 
 
+# ---------------------------------------------------------------- family: single_use
+def gen_single(rng, tier):
+    import itertools
+    out = []
+    # every single-preemption schedule for two threads (A runs i steps, then B to completion, then A)
+    for i in range(0, 40 if tier == "quick" else 120, 1 if tier == "thorough" else 2):
+        out.append({"k": 2, "segments": [[0, i], [1, 10000]], "raises": False})
+        out.append({"k": 2, "segments": [[1, i], [0, 10000]], "raises": i % 3 == 0})
+    n = 40 if tier == "quick" else 800
+    for _ in range(n):
+        k = rng.choice([2, 3, 4])
+        out.append({"k": k, "sched": [rng.randrange(k) for _ in range(rng.randrange(0, 400))], "raises": rng.random() < 0.3})
+    out.append({"k": 1, "sched": [], "raises": False, "no_context": True})
+    return out
+
+
+def impl_single(case):
+    from lib.linesched import LineScheduler, segments_to_schedule
+    import eliot
+    from eliot import start_action, preserve_context, _output
+    from eliot._action import TooManyCalls
+    d = _output.Destinations()
+    _output.Logger._destinations = d
+    msgs = []
+    d.add(msgs.append)
+    ran = []
+
+    class Boom(Exception):
+        pass
+    boom = Boom("app")
+
+    def f(x):
+        ran.append(x)
+        if case["raises"]:
+            raise boom
+        return ("result", x)
+    if case.get("no_context"):
+        return {"same_function": preserve_context(f) is f}
+    with start_action(action_type="parent"):
+        g = preserve_context(f)
+    results = [None] * case["k"]
+
+    def make(t):
+        def body():
+            try:
+                results[t] = ["returned", list(g(t))]
+            except TooManyCalls:
+                results[t] = ["TooManyCalls"]
+            except Boom as e:
+                results[t] = ["raised_same" if e is boom else "raised_other"]
+        return body
+    s = LineScheduler(files=("eliot/_action.py",))
+    sched = case.get("sched")
+    if sched is None:
+        sched = segments_to_schedule([tuple(x) for x in case["segments"]])
+    trace = s.run([make(t) for t in range(case["k"])], sched)
+    # order in which the threads reached the guard line (first step inside restore_eliot_context)
+    order = []
+    for t, fn, line, func in s.where:
+        if func == "restore_eliot_context" and t not in order:
+            order.append(t)
+    remote = [m for m in msgs if m.get("action_type") == "eliot:remote_task"]
+    return {"results": results, "ran": ran, "guard_order": order, "trace_len": len(trace),
+            "remote_starts": sum(1 for m in remote if m["action_status"] == "started"),
+            "remote_levels": sorted({tuple(m["task_level"][:-1]) for m in remote}),
+            "parent_levels": [m["task_level"] for m in msgs if m.get("action_type") == "parent"],
+            "thread_errors": [r for r in s.results if r and r[0] != "ok"]}
+
+
+def model_single(case):
+    return None
+
+
+def post_single(cases, obs_list):
+    from lib import coqbridge
+    from lib.coqbridge import Nat
+    exprs, idx = [], []
+    for i, (case, obs) in enumerate(zip(cases, obs_list)):
+        if case.get("no_context"):
+            continue
+        # the model is driven by the order in which the threads performed their test-and-set
+        exprs.append("invoke %s false []" % to_coq([Nat(t) for t in obs["guard_order"]]))
+        idx.append(i)
+    vals = coqbridge.eval_in_coq(["Model.SingleUse"], exprs)
+    out = [None] * len(cases)
+    for i, v in zip(idx, vals):
+        out[i] = {"outcome": sorted([t, r] for t, r in v)}
+    return out
+
+
+def project_single(case, obs):
+    if case.get("no_context"):
+        return None
+    return {"outcome": sorted([t, ("Ran" if r[0] != "TooManyCalls" else "TooManyCalls")] for t, r in enumerate(obs["results"]) if r is not None)}
+
+
+def oracle_single(case, obs):
+    if case.get("no_context"):
+        return None if obs["same_function"] else "preserve_context(f) is not f although there is no current action"
+    if obs["thread_errors"]:
+        return "a thread died: %r" % obs["thread_errors"]
+    res = obs["results"]
+    winners = [t for t, r in enumerate(res) if r[0] != "TooManyCalls"]
+    if len(obs["ran"]) != 1 or len(winners) != 1:
+        return "the function ran %d time(s) for %d concurrent invocations (results %r)" % (len(obs["ran"]), case["k"], res)
+    w = winners[0]
+    if case["raises"]:
+        if res[w] != ["raised_same"]:
+            return "the function's exception did not pass through unchanged: %r" % (res[w],)
+    elif res[w] != ["returned", ["result", w]]:
+        return "the function's result did not pass through: %r" % (res[w],)
+    if obs["remote_starts"] != 1:
+        return "%d remote actions were started" % obs["remote_starts"]
+    if obs["remote_levels"] != [[2]]:
+        return "remote action at %r, expected the reserved position [2] of the parent" % (obs["remote_levels"],)
+    return None
+
+
+# ---------------------------------------------------------------- family: process hand-off
+def gen_process(rng, tier):
+    n = 6 if tier == "quick" else 60
+    return [{"depth": rng.randrange(1, 4), "as_text": rng.random() < 0.5, "seed": rng.randrange(1 << 30), "hops": rng.choice([1, 1, 2])}
+            for _ in range(n)]
+
+
+CHILD = r"""
+import sys, json
+from eliot import to_file, Action, log_message, start_action
+tid = sys.argv[1]
+if sys.argv[3] == "bytes":
+    tid = tid.encode("ascii")
+to_file(open(sys.argv[2], "ab"))
+with Action.continue_task(task_id=tid) as a:
+    log_message(message_type="remote:msg", hop=int(sys.argv[4]))
+    with start_action(action_type="remote:inner"):
+        pass
+    if int(sys.argv[4]) > 1:
+        print(a.serialize_task_id().decode("ascii"))
+"""
+
+
+def impl_process(case):
+    import io, os, random, subprocess, tempfile, shutil
+    from eliot import start_action, log_message, FileDestination, _output
+    from eliot.parse import Parser, WrittenAction
+    from lib.framework import ROOT, PY
+    d = _output.Destinations()
+    _output.Logger._destinations = d
+    f1 = io.BytesIO()
+    d.add(FileDestination(file=f1))
+    work = tempfile.mkdtemp(prefix="c06", dir=os.path.join(ROOT, ".work"))
+    try:
+        files = [os.path.join(work, "remote%d.log" % i) for i in range(case["hops"])]
+        env = dict(os.environ)
+        ids = []
+        with start_action(action_type="root"):
+            for _ in range(case["depth"] - 1):
+                log_message(message_type="pad")
+            with start_action(action_type="origin") as a:
+                log_message(message_type="before")
+                tid = a.serialize_task_id().decode("ascii")
+                log_message(message_type="after")
+        ids.append(tid)
+        for hop in range(case["hops"]):
+            p = subprocess.run([PY, "-c", CHILD, ids[-1], files[hop], "text" if case["as_text"] else "bytes", str(case["hops"] - hop)],
+                               capture_output=True, text=True, env=env, cwd=ROOT, timeout=60)
+            if p.returncode != 0:
+                return {"child_error": p.stderr[-500:]}
+            if p.stdout.strip():
+                ids.append(p.stdout.strip())
+        lines = f1.getvalue().decode().splitlines()
+        for fn in files:
+            lines += open(fn).read().splitlines()
+        rnd = random.Random(case["seed"])
+        views = []
+        for k in range(3):
+            order = list(lines)
+            if k:
+                rnd.shuffle(order)
+            tasks = list(Parser.parse_stream([json.loads(x) for x in order]))
+
+            def dump(n):
+                if isinstance(n, WrittenAction):
+                    return [n.action_type, n.task_level.as_list(), n.status, [dump(c) for c in n.children]]
+                return [n.contents.get("message_type"), n.task_level.as_list()]
+            views.append({"n_tasks": len(tasks), "complete": [t.is_complete() for t in tasks], "trees": [dump(t.root()) for t in tasks]})
+        return {"ids": ids, "views": views, "n_lines": len(lines)}
+    finally:
+        shutil.rmtree(work, ignore_errors=True)
+
+
+def oracle_process(case, obs):
+    if "child_error" in obs:
+        return "child process failed: %s" % obs["child_error"]
+    first = obs["views"][0]
+    for v in obs["views"]:
+        if v != first:
+            return "merged logs parse differently in different merge orders"
+    if first["n_tasks"] != 1 or first["complete"] != [True]:
+        return "hand-off across processes did not produce one complete task: %r" % (first["complete"],)
+
+    def find(n, typ):
+        out = []
+        if isinstance(n[3] if len(n) > 3 else None, list):
+            if n[0] == typ:
+                out.append(n)
+            for c in n[3]:
+                out += find(c, typ)
+        return out
+    root = first["trees"][0]
+    origin = find(root, "origin")
+    if len(origin) != 1:
+        return "origin action not found once"
+    o = origin[0]
+    kids = [(c[0], c[1]) for c in o[3]]
+    want = o[1] + [3]
+    remote = [c for c in o[3] if c[0] == "eliot:remote_task"]
+    if len(remote) != 1 or remote[0][1] != want:
+        return "remote task is not the child of the originating action at the reserved position %r: children %r" % (want, kids)
+    if [c[0] for c in o[3]] != ["before", "eliot:remote_task", "after"]:
+        return "children of the originating action out of order: %r" % ([c[0] for c in o[3]],)
+    inner = [c[0] for c in remote[0][3]]
+    if inner[:2] != ["remote:msg", "remote:inner"]:
+        return "remote sub-tree content wrong: %r" % inner
+    if case["hops"] == 2:
+        second = [c for c in remote[0][3] if c[0] == "eliot:remote_task"]
+        if len(second) != 1:
+            return "second hop is not a child of the first remote task"
+    tid = obs["ids"][0]
+    if tid.split("@")[1] != "/" + "/".join(map(str, want)):
+        return "serialized id %r does not name the reserved position %r" % (tid, want)
+    return None
+
+
+# hand-offs inside generated programs (threads; bytes, text and preserve_context; multi-hop), parsed after shuffling
+import props.C01 as _c01
+
+
+def gen_handoff(rng, tier):
+    n = 50 if tier == "quick" else 800
+    out = []
+    for i in range(n):
+        case = progs.gen_case(rng, n_dests=1, fault=0.0, registry_rate=0.0, p_fault_ser=0.0, p_typed=0.1, p_handoff=0.35,
+                              p_raise=0.15, depth=4 if tier == "quick" or i % 3 else 6, file_dest=True)
+        case["registry"] = []
+        case["shuffle_seed"] = rng.randrange(1 << 30)
+        out.append(case)
+    return out
+
+
+def nontrivial_handoff(case, obs):
+    return json.dumps(case["prog"], sort_keys=True) if '"handoff"' in json.dumps(case["prog"]) else None
+
+
 FAMILIES = [
     Family("ids", gen_ids, impl_ids, model_ids, model_obs_ids, oracle_ids, nontrivial_ids,
            imports=["Base.Level"], project=project_ids,
            describe=lambda c: "raw" if "raw" in c else "depth%d" % min(len(c["level"]), 6)),
+    Family("single_use", gen_single, impl_single, model_single, None, oracle_single,
+           lambda case, obs: json.dumps(case) if isinstance(obs, dict) and len(obs.get("guard_order", [])) >= 2 else None,
+           project=project_single, shard=30, case_timeout=30,
+           describe=lambda c: "threads:%d" % c["k"]),
+    Family("handoff_programs", gen_handoff, _c01.impl, _c01.model_expr, _c01.model_obs, _c01.oracle, nontrivial_handoff,
+           imports=["Model.Core", "Model.Prog", "Model.Parser", "Model.Roundtrip"], project=_c01.project,
+           describe=progs.describe, shrink=progs.shrink, shard=25, coq_shard=40, case_timeout=30),
+    Family("process", gen_process, impl_process, None, None, oracle_process,
+           lambda case, obs: json.dumps(case), shard=2, case_timeout=60, workers=6),
 ]
+FAMILIES[1].post_model = post_single
 
 LEVEL_TEXT = ("Coq theorems: TaskLevel string round-trip, task-id round-trip and injectivity for all uuids/levels; "
               "tied to /repo by running the real TaskLevel/serialize_task_id/continue_task on generated ids and comparing "
